@@ -210,8 +210,36 @@ pub fn probes_for(z: &MZone) -> Vec<i64> {
             p.push(u.saturating_add(d));
         }
     }
+    // supported-range limits seen through every offset of the zone (the local date must be representable, not the instant)
+    for o in z.offsets() {
+        for lim in [MIN_UNIX_TIME, MAX_UNIX_TIME] {
+            for d in -1i64..=1 {
+                p.push(lim - o as i64 + d);
+                p.push(lim + d);
+            }
+        }
+    }
     p.sort();
     p.dedup();
+    p
+}
+
+/// probes around the trailing DST rule's own transitions in the years after the table (rule evaluated at the instant,
+/// not at the leap-corrected value)
+pub fn rule_probes(cyc: &Cycle, z: &MZone) -> Vec<i64> {
+    let mut p = vec![];
+    if let (Some(MRule::Alt { spec, .. }), Some(&(t, _))) = (&z.rule, z.trans.last()) {
+        if t > -(1i64 << 40) && t < (1i64 << 40) {
+            let (c, _, _, _) = cyc.gmtime(t);
+            for y in c.year + 1..=c.year + 3 {
+                for x in [spec.s(cyc, y), spec.e(cyc, y)] {
+                    for d in -4i64..=4 {
+                        p.push(x + d);
+                    }
+                }
+            }
+        }
+    }
     p
 }
 
@@ -289,7 +317,10 @@ pub fn run(args: &Args) -> i32 {
                     let r = guard(|| {
                         let mut t2 = Tally::default();
                         let z = build_zone(&cyc, &times, &idx, leap_variant, rule_kind, &us);
-                        let probes = probes_for(&z);
+                        let mut probes = probes_for(&z);
+                        probes.extend(rule_probes(&cyc, &z));
+                        probes.sort();
+                        probes.dedup();
                         check_zone(&cyc, &z, &probes, &rec, "table", &mut t2);
                         t2
                     });
